@@ -27,10 +27,12 @@ import TdVerif.Lemmas.C08View
 import TdVerif.Lemmas.C08UpdateAt
 import TdVerif.Lemmas.C08Mask2Span
 import TdVerif.Lemmas.C08SetMask2
+import TdVerif.Lemmas.C08SetTensor
 import TdVerif.Lemmas.C08Out
 import TdVerif.Lemmas.C08Out2
 import TdVerif.Lemmas.C08Out3
 import TdVerif.Lemmas.C08Set2
+import TdVerif.Lemmas.C08Set2Mask
 import TdVerif.Lemmas.C08Set3
 import TdVerif.Lemmas.C08Mask2Get
 
@@ -336,6 +338,26 @@ theorem setitem_write_through_mask1 [Inhabited α] (L : Lazy α) (b : Shape) (ke
     L'.sd = L.sd ∧ Uniform L' b keys feat ∧ L'.members.length = L.members.length ∧
     ∀ k ∈ keys, IsSetT ix ((absL L).leaf k) (v.leaf k) ((absL L').leaf k) :=
   setitem_refines_mask1 L b keys feat hU hne0 ix hp hne hadv m hitem hnd v hvk hvl bd hbd L' h
+
+/-- **`lazy[index] = tensor_or_number`** (`__setitem__` with a value that is not a tensordict; the
+branch repaired by "lazy[idx] = tensor / number did not broadcast"): for every entry `k` the value
+is brought to the indexed shape of that entry (`bcastValue`: extra leading singleton dims dropped,
+then torch's `expand`) and written through `set_at_`; the dense stack of the members afterwards is
+`IsSetT index (dense before) (the broadcast value)` for every entry. -/
+theorem setitem_tensor_write_through [Inhabited α] (L : Lazy α) (b : Shape) (keys : List String)
+    (feat : String → Shape) (hU : Uniform L b keys feat) (hne0 : L.members ≠ []) (ix0 ix : List Ix)
+    (hix : convertEllipsis ix0 L.batch.length = some ix)
+    (hp : Plain L.sd ix) (hne : ∀ it ∈ ix, it ≠ Ix.ell) (hadv : AtMostOneAdv ix)
+    (hnd : NoDupTargets (splitRec L.sd ix).out)
+    (hdist : ∀ t, (splitRec L.sd ix).item = some (.tens t) → ∃ k, t.shape = [k] ∧
+      ∀ j j', j < k → j' < k →
+        normInt (t.get [j]) L.members.length = normInt (t.get [j']) L.members.length → j = j')
+    (t : T α) (L' : Lazy α) (h : lazySetTensor L keys feat ix0 t = some L') :
+    ∃ ibs, idxShape ix (absL L).batch = some ibs ∧
+      L'.sd = L.sd ∧ Uniform L' b keys feat ∧ L'.members.length = L.members.length ∧
+      ∀ k ∈ keys, ∃ x, bcastValue t (ibs ++ feat k) = some x ∧ x.shape = ibs ++ feat k ∧
+        IsSetT ix ((absL L).leaf k) x ((absL L').leaf k) :=
+  setitem_tensor_refines L b keys feat hU hne0 ix0 ix hix hp hne hadv hnd hdist t L' h
 
 /-- **Writes with a rank-2 mask on the stack dim** (`lazy[pre…, mask2d, post…] = v`, the mask covering
 the stack dim and the next one; ints / slices / None around it): the value is split along
@@ -906,6 +928,23 @@ theorem setitem_stack_of_stacks_composes [Inhabited α] (Lo : Lazy2 α) (bIn : S
     ∀ k ∈ keys, IsSetT ix ((abs2 Lo).leaf k) (v.leaf k) ((abs2 Lo').leaf k) :=
   setitem2_core Lo bIn keys feat sdIn nIn hU hne0 ix hp hne hadv hdist hin v hvk hvl bd hbd Lo' h
 
+/-- **Index writes through a stack of stacks with a rank-1 mask on the OUTER stack dim**
+(`lol[…, mask, …] = v`): the inner stacks the mask keeps receive, in order, the successive slices of
+`v` along `mask_loc - num_single`, each through its own `__setitem__` with the index without the
+mask; if these inner writes are write-throughs (`InnerSetOK`, discharged by the one-level theorems)
+the dense stack of dense stacks afterwards is the one before with `v` written at `ix`. -/
+theorem setitem_stack_of_stacks_mask1 [Inhabited α] (Lo : Lazy2 α) (bIn : Shape) (keys : List String) (feat : String → Shape)
+    (sdIn nIn : Nat) (hU : Uniform2 Lo bIn keys feat sdIn nIn) (hne0 : Lo.members ≠ []) (ix : List Ix)
+    (hp : PlainM Lo.sd ix) (hne : ∀ it ∈ ix, it ≠ Ix.ell) (hadv : AtMostOneAdv ix)
+    (m : T Bool) (hitem : (splitRec Lo.sd ix).item = some (.mask m))
+    (hin : InnerSetOK Lo bIn keys feat (splitRec Lo.sd ix).out)
+    (v : TD α) (hvk : v.keys = keys) (hvl : ∀ k ∈ keys, (v.leaf k).shape = v.batch ++ feat k)
+    (bd : Shape) (hbd : idxShape ix (abs2 Lo).batch = some bd)
+    (Lo' : Lazy2 α) (h : lazySetCore2 Lo ix v = some Lo') :
+    Lo'.sd = Lo.sd ∧ Uniform2 Lo' bIn keys feat sdIn nIn ∧ Lo'.members.length = Lo.members.length ∧
+    ∀ k ∈ keys, IsSetT ix ((abs2 Lo).leaf k) (v.leaf k) ((abs2 Lo').leaf k) :=
+  setitem2_mask1 Lo bIn keys feat sdIn nIn hU hne0 ix hp hne hadv m hitem hin v hvk hvl bd hbd Lo' h
+
 /-- the inner hypothesis discharged by the one-level write theorem: the remainder index is in its
 grammar for the inner stacks (no mask on / spanning the inner stack dim, inner stack-dim item
 absent / int / slice / rank-1 tensor with distinct entries, no duplicate targets elsewhere) -/
@@ -1037,6 +1076,11 @@ example : (match lazySetCoreM (⟨[exM 0, exM 1], 0⟩ : Lazy Int) [.mask (T.ofL
 example : (match lazySetCoreM exL [.mask (T.ofList [2, 3] [true, false, true, false, false, true])]
       { batch := [3], keys := ["a"], leaf := fun _ => T.arange 500 [3] } with
     | some L' => L'.members.map fun x => (x.leaf "a").toList | none => []) = [[500, 1], [10, 11], [501, 502]] := by decide
+-- `exL[:, 1] = tensor([7, 8])`: the value (shape [2]) is the indexed shape of "a" already; `exL[0] = 5` broadcasts a number
+example : (match lazySetTensor exL ["a"] (fun _ => []) [Ix.full, .int 1] (T.ofList [2] [7, 8]) with
+    | some L' => L'.members.map fun x => (x.leaf "a").toList | none => []) = [[0, 1], [7, 8], [20, 21]] := by decide
+example : (match lazySetTensor exL ["a"] (fun _ => []) [.int 0] (T.ofList [] [5]) with
+    | some L' => L'.members.map fun x => (x.leaf "a").toList | none => []) = [[5, 1], [5, 11], [5, 21]] := by decide
 -- view / flatten: `exL.view(6)` = `exL.flatten(0, 1)`: 6 pieces (plain tensordicts) stacked along 0
 example : (match lazyView exL [6] with
     | some (.lazy i ps) => (i, ps.length, (absR2 (.lazy i ps)).batch, ((absR2 (.lazy i ps)).leaf "a").toList)
